@@ -16,7 +16,7 @@ use neurons::tensor::Tensor;
 
 pub fn meta(_ctx: &Ctx) -> Meta {
     Meta {
-        rule: "ALL (N,B,E) with N in 1..6, B in 1..7 (B=1, B not dividing N, B=N, B>N), E in 1..3, plus a 1024->64->2 network with (N,B) in {(32,32),(40,32),(150,32),(70,64)}, plus (N,B) in {(64,64),(65,64),(65,65),(70,128),(130,65),(130,100),(129,64)} x networks {dense-linear on one-hot inputs (sample i touches column i only), dense+bias tanh -> dense, conv -> dense, dense -> feedback[dense]x2 -> dense} x optimizers {SGD, SGDM, Adam, RMSprop} x objectives {MSE, AE}; batch sizes usize::MAX, usize::MAX-1, usize::MAX/2+1; pairwise different samples; also two consecutive learn() calls on the same network (16 settings x 4 phase pairs). Oracle: reference trainer (consecutive groups in order, per-sample gradients at the pre-step weights summed, one optimizer step per group with step number = epoch, loss = mean over groups of mean per-sample loss) vs learn()'s final weights and returned loss vector. A state is the weight vector after each optimizer step; non-trivial = runs with >= 2 groups or >= 2 samples per group".into(),
+        rule: "ALL (N,B,E) with N in 1..6, B in 1..7 (B=1, B not dividing N, B=N, B>N), E in 1..3, plus a 1024->64->2 network with (N,B) in {(32,32),(40,32),(150,32),(70,64)}, plus (N,B) in {(64,64),(65,64),(65,65),(70,128),(130,65),(130,100),(129,64)} x networks {dense-linear on one-hot inputs (sample i touches column i only), dense+bias tanh -> dense, conv -> dense, dense -> feedback[dense]x2 -> dense} x optimizers {SGD, SGDM, Adam, RMSprop} x objectives {MSE, AE}; batch sizes usize::MAX, usize::MAX-1, usize::MAX/2+1; a group whose only sample has an exactly zero loss and gradient; pairwise different samples; also two consecutive learn() calls on the same network (16 settings x 4 phase pairs). Oracle: reference trainer (consecutive groups in order, per-sample gradients at the pre-step weights summed, one optimizer step per group with step number = epoch, loss = mean over groups of mean per-sample loss) vs learn()'s final weights and returned loss vector. A state is the weight vector after each optimizer step; non-trivial = runs with >= 2 groups or >= 2 samples per group".into(),
         bound: "N <= 6, B <= 7, E <= 3 (thorough: N <= 9, B <= 10, E <= 4); complete product".into(),
         exhaustive: true,
         assumptions: vec![
@@ -179,6 +179,12 @@ pub fn check(seed: u64, case: &Kv, rep: &mut Report) {
     let mut ts: Vec<Tensor> = (0..n)
         .map(|i| Tensor::single((0..n_out).map(|j| if onehot { (i as f32 + 1.0) * 0.5 - j as f32 } else { r.signed(0.1, 1.0) }).collect()))
         .collect();
+    // "zero-sample": sample 1 is the zero vector with a zero target (bias-free linear network: its loss and its gradient
+    // are exactly 0) - its group still gets its optimizer step (momentum, running averages and decay act on a zero gradient)
+    if case.opt("data") == Some("zero-sample") && n >= 2 {
+        xs[1] = tensor(net.input, &vec![0.0; n_in]);
+        ts[1] = Tensor::single(vec![0.0; n_out]);
+    }
     for i in 1..n {
         if identical {
             xs[i] = xs[0].clone();
@@ -404,6 +410,13 @@ pub fn cases(thorough: bool) -> Vec<Kv> {
         for (n, b, e) in [(4usize, 2usize, 2usize), (5, 3, 1), (6, 6, 1)] {
             out.push(Kv::new().put("net", "mlp").put("opt", ospec.name()).put("obj", "MSE").put("n", n).put("b", b).put("e", e).put("data", "identical"));
             out.push(Kv::new().put("net", "mlp").put("opt", ospec.name()).put("obj", "MSE").put("n", n).put("b", b).put("e", e).put("data", "same-input"));
+        }
+    }
+    // a group whose samples all have an exactly zero loss (and gradient), between ordinary groups, under stateful optimizers
+    for ospec in opts() {
+        for (n, b, e) in [(3usize, 1usize, 2usize), (4, 1, 3), (2, 1, 2)] {
+            out.push(Kv::new().put("net", "onehot").put("opt", ospec.name()).put("obj", "MSE").put("n", n).put("b", b).put("e", e).put("data", "zero-sample"));
+            out.push(Kv::new().put("net", "onehot").put("opt", ospec.name()).put("obj", "AE").put("n", n).put("b", b).put("e", e).put("data", "zero-sample"));
         }
     }
     // "one group": batch sizes at the very end of usize (B > N in its most extreme form)
